@@ -55,6 +55,13 @@ def fault_cases(tier):
     for b in BUILTIN:
         for (ml, msg) in MESSAGES[:2]:
             out.append({'kind': 'fault', 'cls': b, 'code': None, 'ml': ml, 'msg': msg, 'dl': 'none', 'detail': None})
+    # generated subclasses of the dedicated errors that refine the code with sub-codes (class attribute CODE, which the
+    # constructors pass on) or overwrite faultcode on the instance: still the dedicated error, still its HTTP status
+    for b in sorted(STATUS):
+        for how in ('CODE', 'instance'):
+            for sub in ('{code}.User', '{code}.A.B', 'Client.Other', 'Server.Custom'):
+                out.append({'kind': 'fault', 'cls': b, 'sub': sub, 'how': how, 'code': None, 'ml': 'ascii', 'msg': 'plain message',
+                            'dl': 'none', 'detail': None})
     return out
 
 
@@ -87,6 +94,20 @@ def make_exc_factory(b, case, secret):
             mk = lambda: E.InternalError(RuntimeError(secret))
         elif cls == 'ArgumentError':
             mk = lambda: E.ArgumentError(msg)
+        if case.get('sub'):
+            base = getattr(E, cls)
+            code = case['sub'].format(code=base.CODE)
+            if case['how'] == 'CODE':
+                sub_cls = type(str('Sub' + cls), (base,), {'CODE': code})
+                mk0 = mk
+                mk = lambda: sub_cls(msg)
+            else:
+                sub_cls = type(str('Sub' + cls), (base,), {})
+
+                def mk():
+                    f = sub_cls(msg)
+                    f.faultcode = code
+                    return f
         inst = mk()
         exp = {'code': inst.faultcode, 'string': inst.faultstring, 'detail': inst.detail}
         return mk, exp
@@ -245,7 +266,7 @@ def run_shard(shard, only=None):
                 secret = 'SECRET-%s-%d-%d' % (proto.upper(), shard['part'], counter[0])
                 mk, exp = make_exc_factory(b, case, secret)
                 casedoc = {'shard': shard, 'only': key}
-                label = case['cls'] if case['kind'] == 'fault' else 'exc:' + case['type']
+                label = (case['cls'] + ('<sub>' if case.get('sub') else '')) if case['kind'] == 'fault' else 'exc:' + case['type']
 
                 def V(kind, detail, what):
                     res['violations'].append({'sig': 'C09|%s|%s|%s|%s%s' % (kind, proto, transport, label, ('|' + detail) if detail else ''),
